@@ -513,6 +513,17 @@ func (ro *Roles) orderRules(r *Report, rule string) {
 					}
 					fnName := enclosingFuncName(file, st)
 					pos := w.Pos(st.Pos())
+					// the persisted snapshot is read back into maps (C10 load rules): its order is not reported
+					persistedOnly := false
+					if sl, ok := target.Type().Underlying().(*types.Slice); ok {
+						if en := namedOf(sl.Elem()); en != nil && en.Obj().Pkg() != nil && strings.HasSuffix(en.Obj().Pkg().Path(), "/store") {
+							persistedOnly = true
+						}
+					}
+					if persistedOnly {
+						r.OK(rule+".not-reported", fnName+": "+target.Name()+" (built in map order)", pos, "records of the persisted snapshot (read back into maps by the load function)")
+						continue
+					}
 					if !reportedOrderFunc(fnName) {
 						r.OK(rule+".not-reported", fnName+": "+target.Name()+" (built in map order)", pos, "not part of an API-reported order (log output)")
 						continue
